@@ -1,5 +1,6 @@
 // C20 — circuit breaker. Exhaustive outcome/clock histories of the real plugin under the virtual clock
 // against the state machine the property describes, plus schedule exploration of concurrent callers.
+//go:debug panicnil=1
 package main
 
 import (
@@ -20,7 +21,9 @@ const ID = "C20"
 const rt = 10 * time.Second
 
 var advances = []time.Duration{0, rt - 1, rt, rt + 1}
-var outcomes = []string{"S", "E", "P"}
+// N: the forwarded call panics with a nil value (recover returns nil for it under the panic semantics the
+// library's go.mod selects, see the go:debug line above)
+var outcomes = []string{"S", "E", "P", "N"}
 
 type step struct {
 	adv time.Duration
@@ -63,6 +66,8 @@ func runHistory(threshold uint64, mock bool, hist []step, res *h.SeqResult) {
 					return nil, errDown
 				case "P":
 					panic("downstream panic")
+				case "N":
+					panic(nil)
 				}
 				return []byte("resp"), nil
 			}
@@ -122,7 +127,7 @@ func runHistory(threshold uint64, mock bool, hist []step, res *h.SeqResult) {
 					if err != errDown {
 						res.Violate("breaker|error-not-returned", where+fmt.Sprintf(": got %v", err), rep)
 					}
-				case "P":
+				case "P", "N":
 					if _, ok := err.(*core.PanicError); !ok {
 						res.Violate("breaker|panic-not-converted", where+fmt.Sprintf(": got %T %v", err, err), rep)
 					}
